@@ -307,6 +307,15 @@ def run(pid, tier, seed, replay):
         if any("+" in x for x in g):
             bursts.append(dict(id=1000000 + sc["id"], stim=g, pre=sc["pre"], burst=True))
     log("J2: %d burst variants" % len(bursts))
+    # bystander variants: a second lease of the same deployment (other gseq) is deployed first and never closed; the
+    # script must play out identically and leave it alone (routing keys). Shutdown scripts are left out: the bystander's
+    # exit waits for the hostname service, which the harness may be holding at the gate.
+    bys = [dict(id=2000000 + sc["id"], stim=sc["stim"], pre=False, by=True) for sc in scripts
+           if not sc["pre"] and "s" not in sc["stim"] and len(sc["stim"]) <= 40]
+    if not quick and len(bys) > 6000:
+        rng.shuffle(bys)
+        bys = bys[:6000]
+    log("J2: %d bystander variants" % len(bys))
 
     # ---- J2 replay (sharded over processes; one system under test at a time per process) -----------------
     def shard(items, n):
@@ -321,6 +330,7 @@ def run(pid, tier, seed, replay):
     if long_ones:
         shards.append((long_ones, True))
     shards += [(sh, False) for sh in shard(bursts, max(2, nproc // 2))]
+    shards += [(sh, True) for sh in shard(bys, max(2, nproc // 3))]
     rfuts = []
     for k, (sh, atomic) in enumerate(shards):
         ip, op = os.path.join(work, "s%d.ndjson" % k), os.path.join(work, "t%d.ndjson" % k)
@@ -375,7 +385,7 @@ def run(pid, tier, seed, replay):
                              generated=r.generated, depth=r.depth, wall_s=round(r.wall_s, 1))
 
     # ---- verdict ---------------------------------------------------------------------------------------
-    sid = {s["id"]: s for s in scripts + bursts}
+    sid = {s["id"]: s for s in scripts + bursts + bys}
     violations, drift, inconclusive = [], [], []
     groups = {}
     for i, recs in by.items():
@@ -394,12 +404,12 @@ def run(pid, tier, seed, replay):
     for cl, ids in sorted(groups.items()):
         best = min(ids, key=lambda i: (len(sid[i]["stim"]), sid[i]["pre"], sid[i]["stim"]))
         s = sid[best]
-        sig = "C14:%s:%s%s" % (cl, "pre " if s["pre"] else "", " ".join(s["stim"]))
+        sig = "C14:%s:%s%s%s" % (cl, "pre " if s["pre"] else "", "bystander " if s.get("by") else "", " ".join(s["stim"]))
         detail = "%d replayed scripts fail clause(s) %s\n" % (len(ids), ", ".join("(%s) %s" % (c, CLAUSES[c]) for c in cl))
         detail += "shortest: %s (pre-existing deployment: %s)\n" % (" ".join(s["stim"]), s["pre"])
         detail += "\n".join(json.dumps(show(r)) for r in by[best])
         violations.append(vlib.Violation(pid, sig, detail, {
-            "script.json": json.dumps(dict(stim=s["stim"], pre=s["pre"], burst=bool(s.get("burst")))),
+            "script.json": json.dumps(dict(stim=s["stim"], pre=s["pre"], burst=bool(s.get("burst")), by=bool(s.get("by")))),
             "trace.ndjson": "".join(json.dumps(r) + "\n" for r in by[best])}))
     fgroups = {}
     for key, recs in fby.items():
@@ -455,7 +465,8 @@ def run(pid, tier, seed, replay):
         "transitions": int(sum(c.get("generated", 0) for c in configs.values())),
         "traces_validated_against_impl": len(by) + len(fby),
         "forced_schedule_scripts_replayed": len([i for i in by if i < 1000000]),
-        "burst_variants_replayed": len([i for i in by if i >= 1000000]),
+        "burst_variants_replayed": len([i for i in by if 1000000 <= i < 2000000]),
+        "bystander_variants_replayed": len([i for i in by if i >= 2000000]),
         "free_running_executions": len(fby),
         "evaluations": steps + fsteps,
         "distinct_nontrivial": len(keys),
@@ -506,7 +517,8 @@ def do_replay(pid, tier, seed, path, vh, work, t0):
     s = json.load(open(p))
     ip, op = os.path.join(work, "s.ndjson"), os.path.join(work, "t.ndjson")
     with open(ip, "w") as fh:
-        fh.write(json.dumps(dict(id=0, stim=s["stim"], pre=s.get("pre", False), burst=bool(s.get("burst")))) + "\n")
+        fh.write(json.dumps(dict(id=0, stim=s["stim"], pre=s.get("pre", False), burst=bool(s.get("burst")),
+                                 by=bool(s.get("by")))) + "\n")
     run_vh(vh, ["replay", "-in", ip, "-out", op], 600)
     v, _ = judge(op, not s.get("burst"))
     by = read_traces(op)
